@@ -74,46 +74,53 @@ Definition ref_cast_elem (num : Z) (x : val) : bytes :=
   | _ => []
   end.
 
+Definition ref_cast_slot (num : Z) (v : val) : bytes :=
+  match v with
+  | VOpt (Some x) => ref_cast_elem num x
+  | VOpt None => []
+  | VList l => flat_map (fun e => match e with VOpt (Some x) => ref_cast_elem num x | VOpt None => [] | x => ref_cast_elem num x end) l
+  | x => ref_cast_elem num x
+  end.
+
+Definition ref_scalar_slot (k : kind) (num : Z) (v : val) : bytes :=
+  match v with
+  | VOpt None => []
+  | VOpt (Some x) => spec_field k num x                       (* presence: always written *)
+  | VList l =>
+      if is_bytes_kind k then flat_map (spec_field k num) l
+      else match l with
+           | [] => []
+           | _ => spec_ld num (flat_map (spec_payload k) l)     (* packed *)
+           end
+  | x => if spec_default k x then [] else spec_field k num x
+  end.
+
+Definition ref_msg_slot (num : Z) (idx : nat) (v : val) : bytes :=
+  match v with
+  | VMsg None => []
+  | VMsg (Some (fs, u)) => spec_ld num (rec idx fs u)
+  | VEmb fs u => let p := rec idx fs u in match p with [] => [] | _ => spec_ld num p end
+  | VList l => flat_map (ref_msg_elem num idx) l
+  | _ => []
+  end.
+
+Definition ref_map_slot (kk vk : kind) (num : Z) (v : val) : bytes :=
+  match v with
+  | VMap l =>
+      flat_map (fun e => spec_ld num
+           ((if spec_default kk (fst e) then [] else spec_field kk 1 (fst e)) ++
+            (if spec_default vk (snd e) then [] else spec_field vk 2 (snd e)))) l
+  | _ => []
+  end.
+
 Definition ref_slot (f : fdesc) (v : val) : bytes :=
   let num := fnum f in
   match f_custom f, fty f with
-  | (CTimestamp | CDuration), _ =>
-      match v with
-      | VOpt (Some x) => ref_cast_elem num x
-      | VOpt None => []
-      | VList l => flat_map (fun e => match e with VOpt (Some x) => ref_cast_elem num x | VOpt None => [] | x => ref_cast_elem num x end) l
-      | x => ref_cast_elem num x
-      end
+  | (CTimestamp | CDuration), _ => ref_cast_slot num v
   | COpaque, _ => []
-  | CNone, (TScalar _ | TEnum) =>
-      let k := kind_of_ftype (fty f) in
-      match v with
-      | VOpt None => []
-      | VOpt (Some x) => spec_field k num x                       (* presence: always written *)
-      | VList l =>
-          if is_bytes_kind k then flat_map (spec_field k num) l
-          else match l with
-               | [] => []
-               | _ => spec_ld num (flat_map (spec_payload k) l)     (* packed *)
-               end
-      | x => if spec_default k x then [] else spec_field k num x
-      end
-  | CNone, TMsg idx =>
-      match v with
-      | VMsg None => []
-      | VMsg (Some (fs, u)) => spec_ld num (rec idx fs u)
-      | VEmb fs u => let p := rec idx fs u in match p with [] => [] | _ => spec_ld num p end
-      | VList l => flat_map (ref_msg_elem num idx) l
-      | _ => []
-      end
-  | CNone, TMap kk vk =>
-      match v with
-      | VMap l =>
-          flat_map (fun e => spec_ld num
-               ((if spec_default kk (fst e) then [] else spec_field kk 1 (fst e)) ++
-                (if spec_default vk (snd e) then [] else spec_field vk 2 (snd e)))) l
-      | _ => []
-      end
+  | CNone, (TScalar _ | TEnum) => ref_scalar_slot (kind_of_ftype (fty f)) num v
+  | CNone, TMsg idx => ref_msg_slot num idx v
+  | CNone, TMap kk vk => ref_map_slot kk vk num v
   | CNone, TMapOther => []
   end.
 End RefEnc.
@@ -126,7 +133,8 @@ Fixpoint ref_encode (fuel : nat) (s : schema) (idx : nat) (fs : list val) (un : 
       | None => []
       | Some m =>
           flat_map (fun p => ref_slot (ref_encode g s) (snd p) (nth (fst p) fs (VInt 0)))
-                   (sort_by_num (number_from 0 (mfields m))) ++ un
+                   (sort_by_num (number_from 0 (mfields m))) ++
+          (if m_capture m then un else [])       (* only a capturing message stores unknown fields *)
       end
   end.
 
